@@ -628,7 +628,7 @@ func main() {
 		for _, v := range vs {
 			r.Violation(v.Key, v.What, rp)
 		}
-		s.Close()
+		seqx.Close(s)
 		r.Finish()
 	}
 	r.SetBudget(6*time.Minute, 60*time.Minute)
